@@ -347,7 +347,55 @@ def _buffer_summaries(F):
     return summ, flow, transfer
 
 
+def printer_contracts(ck, F):
+    """The flush analysis below trusts three StdioPrinter methods to leave the line buffer empty with its content written, by
+    name.  Their bodies are held to that here: flush_line_buffer writes the buffer to stdout and clears it; print_buffered_output
+    reaches flush_line_buffer on every path on which the buffer was not empty; pop_buffered_output moves the buffer out;
+    eprintln passes print_buffered_output on every path."""
+    from lib import path_records
+    P = "StdioPrinter::"
+    fl = F.one(P + "flush_line_buffer", "abasic")
+    if fl is not None:
+        names = [c.callee.split("::")[-1] for c in fl.calls()]
+        wr = [c for c in fl.calls() if c.callee.split("::")[-1] in ("write", "write_all") and "line_buffer" in show(fl.expr(c.args[1], depth=20))]
+        cl = [c for c in fl.calls() if c.callee.split("::")[-1] in ("clear", "take", "replace") and "line_buffer" in show(fl.expr(c.args[0], depth=20))]
+        pd = fl.postdominators().get(0, set()) | {0}
+        ok = bool(wr) and bool(cl) and all(c.bb in pd for c in wr + cl) and all(fl.dominates(w.bb, c.bb) for w in wr for c in cl)
+        ck.require(ok, "C15:CLI:printer-contract:flush_line_buffer", "both modes show all output",
+                   "flush_line_buffer writes line_buffer to stdout, then clears it, on every path",
+                   "StdioPrinter::flush_line_buffer no longer writes the buffer and then empties it on every path (%s)" % names, fl.span)
+    pb = F.one(P + "print_buffered_output", "abasic")
+    if pb is not None:
+        bad = 0
+        n = 0
+        for r in path_records(pb):
+            emp = [d[2] for d in r["decisions"] if any(x[1].split("::")[-1] == "is_empty" for x in expr_calls(d[3]))]
+            if emp[:1] == [True]:
+                continue
+            n += 1
+            if not any(c.callee.endswith("flush_line_buffer") or c.callee.split("::")[-1] in ("write", "write_all") for c in r["calls"]):
+                bad += 1
+        ck.require(n > 0 and bad == 0, "C15:CLI:printer-contract:print_buffered_output", "both modes show all output",
+                   "every path of print_buffered_output on which the buffer is not known to be empty flushes it",
+                   "StdioPrinter::print_buffered_output can return with a non-empty buffer unwritten (%d of %d paths): the last, "
+                   "unterminated line of output is lost at exit in `abasic FILE`" % (bad, n), pb.span)
+    pp = F.one(P + "pop_buffered_output", "abasic")
+    if pp is not None:
+        ok = any(c.callee.split("::")[-1] in ("replace", "take") and "line_buffer" in show(pp.expr(c.args[0], depth=20)) for c in pp.calls())
+        ck.require(ok, "C15:CLI:printer-contract:pop_buffered_output", "both modes show all output",
+                   "pop_buffered_output moves the buffer out (mem::replace / take)",
+                   "StdioPrinter::pop_buffered_output no longer empties the buffer it hands out", pp.span)
+    ep = [b for p, b in F.bodies.items() if b.crate == "abasic" and p.startswith("abasic::stdio_printer::StdioPrinter::eprintln")]
+    for b in ep:
+        pd = b.postdominators().get(0, set()) | {0}
+        ok = any(c.callee.endswith("print_buffered_output") and c.bb in pd for c in b.calls())
+        ck.require(ok, "C15:CLI:printer-contract:eprintln", "both modes show all output",
+                   "eprintln passes print_buffered_output on every path", "StdioPrinter::eprintln no longer flushes the buffered output first",
+                   b.span)
+
+
 def cli_flush_rule(ck, F):
+    printer_contracts(ck, F)
     ri = F.one("StdioInterpreter::run_impl", "abasic")
     if ri is None:
         ck.missing("C15:CLI:run_impl", "abasic::stdio_interpreter::StdioInterpreter::run_impl")
